@@ -63,7 +63,6 @@ func H_rawtext(n int) {
 	verifAssert(got == want, "rawtext differs from the line-joining spec")
 }
 
-
 // H_rawtextBytes: non-whitespace bytes survive in order, all 256 byte values.
 func H_rawtextBytes(n int) {
 	s := verifString(n)
